@@ -34,7 +34,7 @@ func runC06(r *Run) {
 	r.Rule("R1", "TABLE.route: NewAnteHandler's closure compares opts[0].GetTypeUrl() with exactly {EthereumTx, Web3Tx, DynamicFeeTx}; each case assigns the handler from {newEVMAnteHandler, newLegacyCosmosAnteHandlerEip712, newCosmosAnteHandler} respectively; when no case matches only failure exits are reachable; every dynamically called handler value originates from one of the three constructors")
 	r.Rule("R2", "TABLE.chains: Cosmos and EIP-712 chains have RejectMessagesDecorator at position 0 and AuthzLimiterDecorator at position 1 constructed with MsgTypeURL(&MsgEthereumTx{}); the Cosmos chain contains the SDK RejectExtensionOptionsDecorator; the eth chain contains EthValidateBasicDecorator whose next is guarded by len(ExtensionOptions)==1 (bypass: IsReCheckTx); EIP-712 VerifySignature returns nil only after len(opts)==1 and the *ExtensionOptionsWeb3Tx assertion")
 	r.Rule("R3", "PATH.assert-in-every-decorator: in each eth-route decorator that calls GetMsgs, a comma-ok assertion to *MsgEthereumTx exists and next is unreachable from its failing edge")
-	r.Rule("R4", "PATH.reject: in RejectMessagesDecorator next is unreachable from the edge on which the assertion to *MsgEthereumTx succeeds, and the assertion exists")
+	r.Rule("R4", "PATH.reject: in RejectMessagesDecorator next is unreachable from the edge on which the assertion to *MsgEthereumTx succeeds, the assertion exists, it sits in a loop over the messages and its failing edge continues the scan (every message is examined)")
 	r.Rule("R5", "TABLE.wrapper-exhaustiveness: every sdk.Msg type in the app's import closure with a []*Any field (nested messages) is a case of checkDisabledMsgs' type switch or in the reasoned allow-list; the MsgExec case recurses with isAuthzInnerMsg=true and an incremented level; the level cap precedes the scan; disabled types are rejected in the MsgGrant and default cases; AnteHandle calls the scan before next")
 	r.Rule("R6", "TABLE.installed: setAnteHandler passes ante.NewAnteHandler(options) (wrapped by NewHaqqAnteHandlerDecorator, which calls the wrapped handler on every success path) to SetAnteHandler")
 
@@ -386,7 +386,7 @@ func runC06(r *Run) {
 				"a loop over the transaction's messages can be left early towards success (break / early return): messages after that point are never examined — e.g. a disabled or Ethereum message placed behind an innocuous one passes", P.witness(w)...)
 		}
 	}
-	r.Floor("R3c", "message loops in app/ante", nLoops, 8)
+	r.Floor("R3c", "message loops in app/ante", nLoops, 13)
 
 	// ---------- R4 ----------
 	if rj, ok := P.FnOK("(app/ante/cosmos.RejectMessagesDecorator).AnteHandle"); ok {
@@ -413,6 +413,29 @@ func runC06(r *Run) {
 			}
 		})
 		r.Check(okR && reads, "R4", fnID(rj)+"#rejects", P.Pos(fnPos(rj)), "a MsgEthereumTx in a Cosmos-route tx leads to failure", "RejectMessagesDecorator lets a transaction containing MsgEthereumTx reach the next decorator", wit...)
+		// every message is examined: the assertion sits in a loop over the messages, and the failing edge of the
+		// assertion (a non-Ethereum message) leads back to the loop head — not out of the loop to next
+		allMsgs := len(as) > 0
+		var wit2 []string
+		for _, a := range as {
+			hd := innermostLoop(a.TA.Block())
+			if hd == nil {
+				allMsgs = false
+				continue
+			}
+			body := loopBody(hd)
+			for _, e := range a.NoEdges {
+				// from the failing edge, next must be unreachable without passing the loop header again
+				isHead := func(in ssa.Instruction) bool { return in.Block() == hd && in == hd.Instrs[0] }
+				_ = body
+				if w := (PathQuery{Fn: rj, StartBlock: e.From.Succs[e.Succ], Block: isHead, Target: next}).Search(); w != nil {
+					allMsgs = false
+					wit2 = P.witness(w)
+				}
+			}
+		}
+		r.Check(allMsgs, "R4", fnID(rj)+"#every-message", P.Pos(fnPos(rj)), "the assertion is applied to every message (a non-Ethereum message continues the scan)",
+			"RejectMessagesDecorator stops scanning at a message that is not a MsgEthereumTx (or does not loop at all): a MsgEthereumTx placed after an ordinary message reaches the Cosmos route's execution", wit2...)
 	} else {
 		r.Bad("R4", "anchor/RejectMessagesDecorator.AnteHandle", "", "not found")
 	}
